@@ -279,3 +279,45 @@ Example C10_uri_verbatim_nonvacuous :
     = Some (map (fun n => [47;115;116;114;101;97;109;115] ++ [47; 49; 48; 48; 37; 115; 112] ++ [47] ++ dec n ++ [46;116;115]
                           ++ [63;116;111;107;101;110;61] ++ tok) [2; 3; 4]).
 Proof. vm_compute. repeat split; reflexivity. Qed.
+
+(* ---------------------------------------------------------------------------------------------------------
+   Disk mode, several streams in one storage directory (Model/C10Names.v: murmur32 of the stream path with explicit
+   32-bit wrap-around, file name = (hash, number)). *)
+From V Require Import C10Names C10NamesProofs.
+
+(* for every interleaving of the writes and deletes of any number of streams on the shared directory: a stream that
+   fetches its segment n reads exactly what it wrote itself last under that number — provided every other stream
+   acting on the directory has a path with a different hash *)
+Theorem C10_segment_fetch_ignores_other_streams : forall path_of es s n,
+  others_differ path_of s es ->
+  dfetch path_of (drun path_of es) s n = option_map (pair s) (own es s n None).
+Proof. exact fetch_is_own. Qed.
+Print Assumptions C10_segment_fetch_ignores_other_streams.
+
+(* the hypothesis is what separates the streams: with equal hashes one stream is served the other's segment *)
+Theorem C10_equal_hash_refuted : exists path_of es s n,
+  murmur (path_of 0) = murmur (path_of 1) /\
+  dfetch path_of (drun path_of es) s n <> option_map (pair s) (own es s n None).
+Proof. exact equal_hash_refuted. Qed.
+Print Assumptions C10_equal_hash_refuted.
+
+Theorem C10_segment_names_injective : forall p q n m,
+  (seg_name p n = seg_name p m -> n = m) /\ (murmur p <> murmur q -> seg_name p n <> seg_name q m) /\
+  0 <= murmur p < 4294967296.
+Proof.
+  intros p q n m. split; [apply seg_name_inj|]. split; [apply seg_names_disjoint | apply murmur_range].
+Qed.
+Print Assumptions C10_segment_names_injective.
+
+(* the two-stream scenario the harness replays on the real generators passes its oracle for all paths and lengths *)
+Theorem C10_two_streams_model_passes : forall pa pb k, two_ok pa pb (two_model pa pb k) = true.
+Proof. exact two_model_passes. Qed.
+Print Assumptions C10_two_streams_model_passes.
+
+(* non-vacuity: two long paths with a common 64-byte prefix hash differently, and each stream reads its own *)
+Example C10_two_streams_nonvacuous :
+  let pre := repeat 97 64 in
+  murmur (47 :: pre ++ [49]) <> murmur (47 :: pre ++ [50]) /\
+  two_model (47 :: pre ++ [49]) (47 :: pre ++ [50]) 3 =
+    (murmur (47 :: pre ++ [49]), murmur (47 :: pre ++ [50]), true, true).
+Proof. vm_compute. split; [discriminate | reflexivity]. Qed.
